@@ -3,6 +3,7 @@
 # the demo fails with it and passes without. Validated seeds are copied to /verif/seeded/<id>-<k>/.
 ROOT=${1:-/tmp/seeds}
 OFFSET=${2:-0}   # added to the patch number when naming the stored seed (round 2: 3)
+PFX=${3:-}   # prefix of the test number in the demo function name (round 3: R)
 export GOFLAGS=-mod=mod GOPROXY=off GOSUMDB=off GOTOOLCHAIN=local; unset GOWORK
 WT=/tmp/scratch/valwt
 git -C /repo worktree remove --force $WT 2>/dev/null
@@ -18,13 +19,13 @@ for d in $ROOT/C*/; do
     if grep -q '^package main' $demo 2>/dev/null; then place=$WT/cmd/bcl; fi
     # clean tree: demo passes
     cp $demo $place/seed_demo_test.go
-    (cd $place && timeout 120 go test -vet=off -count=1 -run "TestSeed${id}_${k}" . >/tmp/scratch/val_clean.log 2>&1); clean=$?
+    (cd $place && timeout 120 go test -vet=off -count=1 -run "TestSeed${id}_${PFX}${k}" . >/tmp/scratch/val_clean.log 2>&1); clean=$?
     grep -q "no tests to run" /tmp/scratch/val_clean.log && clean=99
     rm -f $place/seed_demo_test.go
     if ! git -C $WT apply $p 2>/dev/null; then echo "$id-$k: PATCH DOES NOT APPLY"; continue; fi
     (cd $WT && timeout 300 go test -vet=off -count=1 ./... >/tmp/scratch/val_suite.log 2>&1); suite=$?
     cp $demo $place/seed_demo_test.go
-    (cd $place && timeout 120 go test -vet=off -count=1 -run "TestSeed${id}_${k}" . >/tmp/scratch/val_mut.log 2>&1); mut=$?
+    (cd $place && timeout 120 go test -vet=off -count=1 -run "TestSeed${id}_${PFX}${k}" . >/tmp/scratch/val_mut.log 2>&1); mut=$?
     rm -f $place/seed_demo_test.go
     verdict=REJECT
     if [ $clean -eq 0 ] && [ $suite -eq 0 ] && [ $mut -ne 0 ]; then verdict=OK; fi
